@@ -140,6 +140,22 @@ CLAIMS = {
         note="cbmc 6.11; a source used as scratch and restored exactly on every path is indistinguishable sequentially",
         technique="CBMC bounded model checking (SAT) of snapshot equality on exactly-sized heap objects, module from the real fill_module_precomp; native replay",
         ref="DESIGN.md 4/C18"),
+    "C07": dict(
+        text="Pairwise: znx add/sub/negate AVX vs ref bit for bit on the same symbolic data (sizes 1..16, unaligned buffers); rnx_divide_by_m AVX vs ref as equal "
+             "uninterpreted terms; every other accelerated kernel through the obligation families of C06 (FFT ref/AVX2/.s both equal the documented DFT within "
+             "their radii), C17 (layout kernels bit for bit, dot products / pointwise kernels with the SAME exact polynomial for ref and FMA), C14 (conversions: same "
+             "bit-precise contract), C10 (q120 products ref/AVX2 congruent to the same sum), and the public API under both cpu flags (C08 slice, product pipelines).",
+        note="cbmc 6.11 + shim + vcalg; AVX-512, SSE, NEON units are not encoded; floating-point pairs are related through equal exact-semantics polynomials + reported radii",
+        technique="CBMC bounded model checking (SAT) for integer/data-movement pairs; CBMC symbolic execution + vcalg (UF / real / integer domains) for the rest; native replay",
+        ref="DESIGN.md 4/C07, A.2"),
+    "C16": dict(
+        text="Direct pipelines decided end to end on the real code: rotate->automorphism->add->normalize (bit-precise, symbolic data and p1/p2, both cpu flags) against the "
+             "digits of the ring expression in 128-bit arithmetic; NTT120 vec_znx_dft->vec_znx_idft/_tmp_a returning exactly the input for every int64 coefficient (integer "
+             "domain, by sign class, incl. zero-extension/truncation); FFT64 pipelines of 3-4 calls (svp and vmp chains) as exact real polynomials. Arbitrary programs are "
+             "covered only by the compositional argument over C01-C03/C05/C08/C09 within their bounds.",
+        note="cbmc 6.11 + vcalg; fixed pipelines at N<=8; no random program generation; mixed FFT64-product + integer-tail pipelines not executed end to end",
+        technique="CBMC bounded model checking (SAT) for the integer pipeline; CBMC symbolic execution + vcalg integer/real domains for the NTT120 and FFT64 pipelines; native replay",
+        ref="DESIGN.md 4/C16, A.2"),
 }
 
 NOT_YET = "check not built yet in this session (work in progress; see DESIGN.md section 4 for the plan)"
